@@ -79,6 +79,7 @@ ADJ = "(match.sequence[match.rstart - 1:match.rstart])"   # the base before a 3'
 
 @contract("adapters.py", "FrontAdapterStatistics.add_match", props=["C20"])
 def front_add_match(c):
+    c.runtime = {"module": "cmods", "name": "report_histogram", "replay_count": 4000}
     c.types(self=ObjT("FrontAdapterStatistics", end=EndT, reverse_complemented=Int), match=SingleMatchT)
     c.spec(stat_spec)
     c.modifies = ["self"]
@@ -93,6 +94,7 @@ def front_add_match(c):
 
 @contract("adapters.py", "BackAdapterStatistics.add_match", props=["C20"])
 def back_add_match(c):
+    c.runtime = {"module": "cmods", "name": "report_histogram", "replay_count": 4000}
     c.types(self=ObjT("BackAdapterStatistics", end=EndT, reverse_complemented=Int), match=SingleMatchT)
     c.spec(stat_spec)
     c.modifies = ["self"]
@@ -111,6 +113,7 @@ AnyT = ObjT("AnywhereAdapterStatistics", front=EndT, back=EndT, reverse_compleme
 
 @contract("adapters.py", "AnywhereAdapterStatistics.add_match", props=["C20"])
 def anywhere_add_match(c):
+    c.runtime = {"module": "cmods", "name": "report_histogram", "replay_count": 4000}
     c.types(self=AnyT, match=SingleMatchT)
     c.spec(stat_spec)
     c.modifies = ["self"]
@@ -131,6 +134,7 @@ LStatT = ObjT("LinkedAdapterStatistics", front=EndT, back=EndT, reverse_compleme
 
 @contract("adapters.py", "LinkedAdapterStatistics.add_match", props=["C20"])
 def linked_add_match(c):
+    c.runtime = {"module": "cmods", "name": "report_histogram", "replay_count": 4000}
     c.types(self=LStatT, match=LinkedT)
     c.spec(stat_spec)
     c.modifies = ["self"]
